@@ -97,7 +97,7 @@ CLAIMED = {
         design="6/C11"),
 }
 
-HOLD = {"C20"}   # builder still working
+HOLD = set()
 ALL = ["C%02d" % i for i in range(1, 21)]
 # entries written by the per-property builders: tools/manifest_cXX.json
 import glob
